@@ -3,7 +3,7 @@
    implementation. Statements only. *)
 From Coq Require Import ZArith List Bool.
 From CP Require Import Core.Bytes Core.Result Prim.Int Base.Enum Frame.LVFrame Frame.Units Spec.PL Spec.TlsSpec Spec.TlsBounds.
-From CP Require Import Spec.Registry Lemmas.RegistryTables.
+From CP Require Import Spec.Registry Lemmas.RegistryTls.
 From CPGen Require Import Tables.
 From CP Require Import Lemmas.IntLemmas Lemmas.PLLemmas Lemmas.TlsSpecLemmas Lemmas.TlsBoundsLemmas.
 Open Scope Z_scope.
